@@ -175,6 +175,43 @@ def value_shard(arg):
   return n, okc, bad
 
 
+def repeat_shard(arg):
+  """The same metric-name objects are queued again and again over ONE connection (what a relay does
+  interval after interval): every message must stand on its own."""
+  kind, batch = arg
+  link = Link(kind, batch)
+  r = link.relay
+  r.reset()
+  v = r.apply(('conn_ok', 0))
+  d = r.dests[0]
+  t = r.transport(d)
+  names = [NAMES[0], NAMES[1], NAMES[2]]
+  sent = []
+  data = b''
+  for interval in range(4):
+    for i, nme in enumerate(names):
+      dp = (nme, 1700000000 + 60 * interval, float(interval * 10 + i))
+      sent.append(dp)
+      r.cm.sendDatapoint(nme, (dp[1], dp[2]))
+    for _ in range(1000):
+      calls = r.reactor.clock.getDelayedCalls()
+      if not calls:
+        break
+      r.reactor.clock.advance(max(0.0, min(c.getTime() for c in calls) - r.reactor.clock.seconds()))
+    data += b''.join(t.written)
+    del t.written[:]
+  got, exc, closing = receive(kind, data)
+  bad = []
+  where = '%s link, 4 intervals of the same 3 series over one connection, MAX_DATAPOINTS_PER_MESSAGE=%d' % (kind, batch)
+  if exc is not None or closing:
+    bad.append(('transport', '%s: exception %r closing %r' % (where, exc, closing), {'kind': kind, 'sent': sent[:3], 'batch': batch}))
+  else:
+    vv = check_batch(kind, sent, got, where)
+    if vv:
+      bad.append((vv[0], vv[1], {'kind': kind, 'sent': sent, 'batch': batch}))
+  return len(sent), 0 if bad else len(sent), bad
+
+
 def split_shard(arg):
   kind, batch = arg
   link = Link(kind, batch)
@@ -200,7 +237,11 @@ def split_shard(arg):
         break
       okc += 1
     # message sizes
-    msgs = relayh.decode_pickle_stream(data)[0] if kind == 'pickle' else None
+    try:
+      msgs = relayh.decode_pickle_stream(data)[0] if kind == 'pickle' else None
+    except relayh.Undecodable as e:
+      bad.append(('undecodable-message', '%s link, queue of %d: %s' % (kind, qlen, e), {'kind': kind, 'sent': sent, 'batch': batch}))
+      msgs = None
     if msgs is not None:
       sizes = [len(m) for m in msgs]
       if any(s > batch for s in sizes) or sum(sizes) != qlen:
@@ -231,6 +272,12 @@ def run(ctx):
   sres = core.pmap(split_shard, stasks, fresh=True)
   n2 = ok2 = 0
   for cnt, ok, bad in sres:
+    n2 += cnt
+    ok2 += ok
+    for key, what, rep in bad:
+      ctx.violation(key, what, rep)
+  rres = core.pmap(repeat_shard, [(kind, b) for kind in ('pickle', 'line') for b in (1, 2, 5)], fresh=True)
+  for cnt, ok, bad in rres:
     n2 += cnt
     ok2 += ok
     for key, what, rep in bad:
